@@ -2,6 +2,7 @@
 (nixio/data_view.py, data_set.py, data_array.py get_slice/_read_data, hdf5/h5dataset.py)."""
 import itertools
 import os
+from fractions import Fraction
 
 import numpy as np
 
@@ -29,6 +30,11 @@ THEOREMS = [
     "Nix.C06.C06_source_single",
     "Nix.C06.C06_source_get_slice",
     "Nix.C06.C06_generated_view_read",
+    # get_slice in DATA mode: _get_slice_bydim over C07's index_of, composed with the window theorems
+    "Nix.C06.C06_data_slice",
+    "Nix.C06.C06_data_windows",
+    "Nix.C06.C06_data_axis_range",
+    "Nix.C06.C06_data_axis_sampled",
 ]
 ASSUMPTIONS = [
     "array content is not modelled here (C01): reads and writes are described by the ordered list of parent "
@@ -123,6 +129,7 @@ class Env:
         self.file = nix.File.open(self.path, nix.FileMode.Overwrite)
         self.block = self.file.create_block("b", "t")
         self.arrays = {}
+        self.dimarrays = {}
         self.dirty = set()
 
     def close(self):
@@ -151,6 +158,26 @@ class Env:
             self.dirty.discard(key)
         return da
 
+    def dim_array(self, shape, dims):
+        """array of this shape (content = own offsets) carrying the given dimension descriptors; read-only use"""
+        key = (tuple(shape), core.canon(dims))
+        if key not in self.dimarrays:
+            name = "d%d" % len(self.dimarrays)
+            tshape = tuple(shape)
+            if prod(shape) == 0:
+                da = self.block.create_data_array(name, "t", dtype=self.nix.DataType.Int64, shape=tshape)
+            else:
+                da = self.block.create_data_array(name, "t", data=self.base(tshape))
+            for d in dims:
+                if d[0] == "sampled":
+                    da.append_sampled_dimension(float(rat(d[2])), offset=None if d[1] is None else float(rat(d[1])))
+                elif d[0] == "range":
+                    da.append_range_dimension([float(rat(t)) for t in d[1]])
+                else:
+                    da.append_set_dimension()
+            self.dimarrays[key] = da
+        return self.dimarrays[key]
+
     def raw(self, shape):
         """whole content, read with h5py (not through nixio)"""
         ds = self.arrays[tuple(shape)][1]
@@ -158,6 +185,16 @@ class Env:
 
     def mark(self, shape):
         self.dirty.add(tuple(shape))
+
+
+def rat(x):
+    """protocol number (int or "num/den") -> Fraction"""
+    return Fraction(x) if isinstance(x, str) else Fraction(int(x))
+
+
+def fs(x):
+    fr = Fraction(x)
+    return fr.numerator if fr.denominator == 1 else "%d/%d" % (fr.numerator, fr.denominator)
 
 
 def read_out(r):
@@ -251,6 +288,17 @@ def run_impl(env, case):
                 v[ixp] = val
             idx, _ = written(env, shape)
             return {"ok": {"shape": vshape, "idx": idx}}
+        if op in ("view_data", "view_data_read"):
+            da = env.dim_array(case[1], case[2])
+            pos = [float(rat(x)) for x in case[3]]
+            ext = None if case[4] is None else [float(rat(x)) for x in case[4]]
+            v = da.get_slice(pos, ext, env.nix.DataSliceMode.Data)
+            if op == "view_data":
+                return {"ok": view_json(v)}
+            ix = case[5]
+            if ix is None:
+                return read_out(v._read_data())
+            return read_out(v[py_ix(ix)])
     except Exception as e:
         return {"err": err_name(e)}
     return {"bad": "unknown op"}
@@ -335,6 +383,102 @@ def gen_window(rng, shape, inside=0.75):
         pos.append(p)
         ext.append(e)
     return pos, ext
+
+
+POW2 = [Fraction(1, 8), Fraction(1, 4), Fraction(1, 2), Fraction(1), Fraction(2), Fraction(4)]
+FRACS = [Fraction(0), Fraction(0), Fraction(1, 4), Fraction(-1, 4), Fraction(1, 2), Fraction(-1, 2)]
+
+
+def gen_dim(rng, n):
+    """a dimension descriptor for an axis of n samples and a generator of (position, extent) in its units; all
+    numbers are dyadic with power-of-two intervals, so every float operation on nixio's path is exact and a position
+    is either on a sample or a quarter sample away (far outside the np.isclose bands)"""
+    kind = rng.choice(["sampled", "sampled", "range", "range", "set"])
+    if kind == "sampled":
+        si = rng.choice(POW2)
+        off = rng.choice([None, Fraction(0), Fraction(1, 4), Fraction(-1, 2), Fraction(3), Fraction(-5, 4)])
+        o = off or Fraction(0)
+
+        def pe():
+            if rng.random() < 0.7:              # inside the array
+                k = rng.randint(0, n)
+                p = o + (k + rng.choice(FRACS) * (k > 0)) * si
+                e = (rng.randint(0, n - k) + rng.choice([Fraction(0), Fraction(0), Fraction(1, 4)])) * si
+            else:
+                p = o + (rng.randint(-2, n + 2) + rng.choice(FRACS)) * si
+                e = (rng.randint(-1, n + 2) + rng.choice(FRACS)) * si
+            return p, e
+        return ["sampled", None if off is None else fs(off), fs(si)], pe
+    if kind == "range":
+        m = max(1, n + rng.choice([0, 0, 0, 0, 1, -1]))
+        t = Fraction(rng.randint(-8, 8), 4)
+        ticks = []
+        for _ in range(m):
+            ticks.append(t)
+            t += Fraction(rng.randint(1, 6), 4)
+
+        def pe():
+            r = rng.random()
+            if r < 0.7:                         # start and end on or near ticks, in order
+                i = rng.randrange(len(ticks))
+                j = rng.randint(i, len(ticks) - 1)
+                p = ticks[i] + rng.choice(FRACS) / 2
+                e = ticks[j] + rng.choice(FRACS) / 2 - p
+            elif r < 0.85:
+                p = rng.choice(ticks) + rng.choice(FRACS) / 2
+                e = rng.choice(ticks) + rng.choice(FRACS) / 2 - p
+            else:
+                p = ticks[0] + Fraction(rng.randint(-6, 4 * (ticks[-1] - ticks[0]).__ceil__() + 6), 4)
+                e = Fraction(rng.randint(-3, 24), 4)
+            return p, e
+        return ["range", [fs(x) for x in ticks]], pe
+
+    def pe():
+        if rng.random() < 0.7:
+            k = rng.randint(0, n)
+            return k + rng.choice([0, 0, Fraction(1, 2)]), rng.randint(0, n - k) + rng.choice([0, 0, Fraction(1, 4)])
+        return rng.randint(-1, n + 1) + rng.choice(FRACS), rng.randint(-1, n + 1) + rng.choice(FRACS)
+    return ["set"], pe
+
+
+def gen_data_scene(rng):
+    """an array with dimension descriptors (mostly one per dimension) and a generator of get_slice(...,
+    DataSliceMode.Data) requests on it: [shape, dims, positions, extents]"""
+    rank = rng.choice([1, 1, 2, 2, 3])
+    shape = [rng.choice([1, 2, 3, 4, 5, 6]) for _ in range(rank)]
+    dims, pes = [], []
+    for n in shape:
+        d, pe = gen_dim(rng, n)
+        dims.append(d)
+        pes.append(pe)
+    r = rng.random()
+    if r < 0.04:
+        dims = dims[:-1]                        # fewer descriptors than dimensions
+    elif r < 0.06:
+        dims = dims + [["set"]]
+
+    def request():
+        pos, ext = [], []
+        for pe in pes:
+            p, e = pe()
+            pos.append(fs(p))
+            ext.append(fs(e))
+        r = rng.random()
+        if r < 0.02:
+            pos = pos[:-1] if rng.random() < 0.5 else pos + [0]
+        elif r < 0.04:
+            ext = rng.choice([None, [], ext[:-1], ext + [1]])
+        return [shape, dims, pos, ext]
+    return request
+
+
+def gen_data_cases(rng, n, per_scene=8):
+    out = []
+    while len(out) < n:
+        req = gen_data_scene(rng)
+        for _ in range(per_scene):
+            out.append(req())
+    return out[:n]
 
 
 def all_components(n, steps=(None, 1, 2, 3), bounds=None):
@@ -447,6 +591,17 @@ FIXED_CASES = [
     ["da_write", [3, 4], [10, S(None, None, -1)]], ["da_write", [3, 4], [S(None, None, -1), 10]],
     ["da_write", [3, 4], ["...", "...", 1, 1, 1]], ["da_write", [3, 4], [1, "...", S(None, None, -1), "..."]],
     ["da_write", [3, 4], [1, 1, 1, "...", "..."]], ["da_write", [3, 4], [10, "...", "..."]],
+    # DATA mode: on ticks, between ticks, before/after all ticks, negative extent, sampled with offset, set
+    ["view_data", [4], [["range", [1, 2, 3, 5]]], [2], [3]], ["view_data", [4], [["range", [1, 2, 3, 5]]], [6], [1]],
+    ["view_data", [4], [["range", [1, 2, 3, 5]]], ["3/2"], ["1/4"]], ["view_data", [4], [["range", [1, 2, 3, 5]]], [0], [9]],
+    ["view_data", [4], [["range", [1, 2, 3, 5]]], [3], [-2]], ["view_data", [4], [["range", [1, 2, 3, 5]]], [-3], [1]],
+    ["view_data", [6], [["sampled", "1/4", "1/2"]], ["3/4"], [1]], ["view_data", [6], [["sampled", None, 1]], [-1], [3]],
+    ["view_data", [6], [["sampled", None, 1]], [2], [9]], ["view_data", [6], [["sampled", 3, 1]], [0], [2]],
+    ["view_data", [6], [["set"]], ["3/2"], ["5/2"]], ["view_data", [6], [["set"]], ["-1/2"], [7]],
+    ["view_data", [3, 4], [["set"]], [0, 0], [1, 1]], ["view_data", [3, 4], [["set"], ["set"]], [0, 0], None],
+    ["view_data", [3, 4], [["set"], ["set"]], [0, 0], []], ["view_data", [3, 4], [["set"], ["set"]], [0], [1, 1]],
+    ["view_data_read", [4], [["range", [1, 2, 3, 5]]], [2], [3], [-1]],
+    ["view_data_read", [3, 4], [["range", [1, 2, 4]], ["sampled", None, "1/2"]], [1, "1/2"], [3, 1], ["...", 0]],
 ]
 
 
@@ -520,6 +675,14 @@ def gen_cases(ctx):
         elif r < 0.25:
             sl = sl[:-1]
         add("mkview", ["mkview", shape, sl])
+    # get_slice in DATA mode: positions in dimension units (C07's index_of) -> window -> view
+    for shape, dims, pos, ext in gen_data_cases(rng, ctx.budget(1200, 20000)):
+        kinds = "+".join(sorted(set(d[0] for d in dims))) or "none"
+        add("view_data." + kinds, ["view_data", shape, dims, pos, ext])
+        if ext is not None and rng.random() < 0.6:
+            vs = [3] * len(shape)
+            ix = gen_ix(rng, vs) if rng.random() < 0.9 else None
+            add("view_data_read", ["view_data_read", shape, dims, pos, ext, ix])
     if not ctx.quick():
         for c in exhaustive_cases(4):
             add("exhaustive." + c[0], c)
@@ -632,7 +795,7 @@ def check_case(env, case):
     """returns a Failure if the implementation violates C06 on this case, else None.
     case: [op, shape, (positions, extents,) ix] with op in da_read/da_write/view/view_read/view_write"""
     op = case[0]
-    if op not in ("da_read", "da_write", "view", "view_read", "view_write"):
+    if op not in ("da_read", "da_write", "view", "view_read", "view_write", "view_data", "view_data_read"):
         return None
     shape = case[1]
     rank = len(shape)
@@ -642,9 +805,45 @@ def check_case(env, case):
     site = SITE_ARRAY if op.startswith("da_") else SITE_VIEW
     has_win = op.startswith("view")
     ix = case[4] if op in ("view_read", "view_write") else (case[2] if op.startswith("da_") else None)
+    if op == "view_data_read":
+        ix = case[5]
     da = env.array(shape)
 
-    if has_win:
+    if op.startswith("view_data"):
+        # a view requested in dimension units: whatever window nixio derives, the view must be a window inside the
+        # array that reads like NumPy on that window, or be refused / invalid and empty
+        dims, pos, ext = case[2], case[3], case[4]
+        if ext is None or len(pos) != rank or len(ext) != rank:
+            return None
+        dda = env.dim_array(shape, dims)
+        try:
+            v = dda.get_slice([float(rat(x)) for x in pos], [float(rat(x)) for x in ext], env.nix.DataSliceMode.Data)
+        except Exception:
+            return None          # refused: fine
+        if not v.valid:
+            got = np.asarray(v[:])
+            if got.size:
+                return Failure("an invalid view (DATA mode) yields elements", case,
+                               [int(x) for x in got.ravel()[:12]], "invalid and empty", "DataView._read_data")
+            return None
+        wins = [(int(sl.start), int(sl.stop)) for sl in v._slices]
+        if len(wins) != rank or any(not (0 <= a <= b <= n) for (a, b), n in zip(wins, shape)):
+            return Failure("a view requested in DATA mode is marked valid although its window is not inside the array",
+                           case, {"window": wins, "shape": shape}, "refused, or invalid and empty",
+                           "DataArray._get_slice_bydim / DataView.__init__")
+        win = tuple(slice(a, b) for a, b in wins)
+        if list(v.shape) != [b - a for a, b in wins]:
+            return Failure("view has the wrong shape", case, list(v.shape), [b - a for a, b in wins],
+                           "DataView.data_extent")
+        target = v
+        if op == "view_data":
+            got = np.asarray(v[:])
+            want = base[win]
+            if got.shape != want.shape or not np.array_equal(got, want):
+                return Failure("view[:] (DATA mode) is not the window of the array", case,
+                               got.ravel()[:20].tolist(), want.ravel()[:20].tolist(), SITE_VIEW)
+            return None
+    elif has_win:
         pos, ext = case[2], case[3]
         if ext is None or len(pos) != rank or len(ext) != rank:
             return None          # the property does not speak about malformed requests
@@ -839,6 +1038,11 @@ def oracle_cases(ctx, full):
             else:
                 ix = gen_ix(rng, vshape) if rng.random() < 0.97 else None
                 cases.append(["view_read" if r < 0.6 else "view_write", shape, pos, ext, ix])
+    for shape, dims, pos, ext in gen_data_cases(rng, 6000 if full else 600):
+        if rng.random() < 0.4:
+            cases.append(["view_data", shape, dims, pos, ext])
+        else:
+            cases.append(["view_data_read", shape, dims, pos, ext, gen_ix(rng, [3] * len(shape))])
     return cases
 
 
